@@ -464,6 +464,9 @@ example : (((LMon.init 31).run [.batch 0 31 14, .batch 0 45 5, .batch 0 68 5, .b
 /-- the first batch written (31+14) never arrives at first, nor does the first batch of the new epoch (0+3) -/
 example : (((LMon.init 31).run [.batch 0 45 5, .batch 0 31 14, .reset, .batch 1 3 2, .batch 1 0 3]).map (fun m => (m.done, m.nextSeq))) = some (true, 5) := by decide
 
+/-- a `.reset` seen before the first batch arrives stays pending: `1:0+1` (lost), reset, `1:1+1`, `2:0+1` -/
+example : (((LMon.init 0).run [.reset, .batch 1 1 1, .batch 2 0 1]).map (fun m => (m.epoch, m.nextSeq))) = some (2, 1) := by decide
+
 /-- **Soundness of the arrival monitor with respect to losses** (`Proof.C29Arrival`): a write order that `Mon` accepts, whose
 epochs follow the `.reset` events (`Stamped`: every batch carries the current value of an epoch counter that every `.reset`
 moves up — without this the statement is false, `Proof.C29Arrival.counterexample_reset_inside_epoch`, `…_epoch_reused`) and
